@@ -1,6 +1,7 @@
 package database
 
 import (
+	"math"
 	"runtime"
 	"sort"
 	"strings"
@@ -87,7 +88,7 @@ func (db *Database) SearchWithPipelineOptions(query string, options SearchOption
 
 		// Apply pipeline boost
 		if isPipelineCommand(cmd) && options.PipelineBoost > 0 {
-			score *= options.PipelineBoost
+			score = finiteScore(score * options.PipelineBoost)
 		}
 
 		if score > 0 {
@@ -326,6 +327,15 @@ func calculateScore(cmd *Command, queryWords []string, contextBoosts map[string]
 		}
 	}
 
+	return finiteScore(score)
+}
+
+// finiteScore saturates an overflowed score at the largest finite value: the per-word category
+// factors multiply without bound, so a long enough query drives the product to +Inf.
+func finiteScore(score float64) float64 {
+	if math.IsInf(score, 1) {
+		return math.MaxFloat64
+	}
 	return score
 }
 
